@@ -200,6 +200,28 @@ def _check(ops, impl, want_builder):
                     return where + "default module panicked"
                 pending = (n, [[]], out)
             continue
+        if t[0] == "query-sub" and len(t) >= 4 and t[1] in ("native", "lifted"):
+            # queries issued by a contract from inside one execute call: each one reaches its module, repeats included
+            if pending is not None:
+                stale = True
+            rest = t[2:]
+            if len(rest) % 2 != 0:
+                return where + "malformed query-sub accepted"
+            want = []
+            for i in range(0, len(rest), 2):
+                k, h = rest[i], rest[i + 1]
+                if k == "distribution":
+                    continue
+                slot = QUERY_KINDS.get(k)
+                if slot is None or (k == "custom" and t[1] == "lifted"):
+                    return where + "unknown query kind accepted"
+                mode, tag = ("rec", 0) if slot == "wasm" else cfg.get(slot, ("default", 0))
+                if mode == "rec":
+                    want.append("%s#%d:%s:-:%s" % (slot, tag, QUERY_ENTRY.get(k, "query"), h))
+            if out != "ok":
+                return where + "a contract that only asks queries and ignores the answers must succeed"
+            pending = (n, [want], "query-only")
+            continue
         if t[0] == "sudo" and len(t) == 3:
             k, h = t[1], t[2]
             if pending is not None:
